@@ -74,6 +74,15 @@ func Build(n *nfa.NFA) (*DFA, error) {
 	b.table = make([]Transition, 0, 64*b.stride)
 	b.matchFlags = make([]bool, 0, 64)
 
+	// State 0 is DeadState and never the target of a real transition: reserve it,
+	// so that the start state, which a loop leads back to (a*b), gets ID 1.
+	b.numStates = 1
+	b.matchFlags = append(b.matchFlags, false)
+	b.matchSlots = append(b.matchSlots, 0)
+	for i := 0; i < b.stride; i++ {
+		b.table = append(b.table, NewTransition(DeadState, false, 0))
+	}
+
 	// Build DFA starting from anchored start state
 	startNFA := n.StartAnchored()
 	startDFA, err := b.buildState(startNFA)
